@@ -420,6 +420,8 @@ func c18Fixed(c *Ctx) {
 		{name: "import/cycle", files: map[string]string{"main.zn": "注：一\n导入“甲”\n", "甲.zn": "注：一\n注：二\n导入“乙”\n", "乙.zn": "注：一\n注：二\n注：三\n导入“甲”\n"}, accept: [][]fr{{{M, 2}, {"甲", 3}, {"乙", 4}}}},
 		{name: "input/missing-value", files: map[string]string{"main.zn": "注：a\n注：b\n输入甲\n令乙 = 1\n"}, accept: [][]fr{{{M, 3}}}},
 		{name: "call-entry/not-a-method", files: map[string]string{"main.zn": "注：a\n注：b\n令算 = 1\n令子 = 1\n（算：1、2）\n"}, accept: [][]fr{{{M, 5}}}},
+		{name: "method-entry/input-name-is-no-identifier", files: map[string]string{"main.zn": "注：a\n令子 = 1\n如何算？\n\t输入5x\n\t输出 1\n令丑 = 1\n（算：1）\n"}, accept: [][]fr{{{M, 7}, {M, 4}}}},
+		{name: "method-entry/input-name-is-no-identifier-in-type-method", files: map[string]string{"main.zn": "定义狗：\n\t其名 = 1\n\t如何叫？\n\n\t\t输入数、7y\n\t\t输出 1\n令D = （新建狗）\n令丑 = 1\n以D（叫：1、2）\n"}, accept: [][]fr{{{M, 9}, {M, 5}}}},
 		{name: "call-entry/arity", files: map[string]string{"main.zn": "注：a\n注：b\n如何算？\n\t输入数\n\t输出 数\n\n令子 = 1\n（算：1、2）\n"}, accept: [][]fr{{{M, 8}}, {{M, 8}, {M, 3}}, {{M, 8}, {M, 4}}}},
 		{name: "call-entry/arity-in-module", files: map[string]string{"main.zn": "导入“甲”\n令子 = 1\n令丑 = 1\n（算：1、2）\n", "甲.zn": "注：a\n注：b\n如何算？\n\t输入数\n\t输出 数\n"}, accept: [][]fr{{{M, 4}}, {{M, 4}, {"甲", 3}}, {{M, 4}, {"甲", 4}}}},
 		{name: "call-entry/constructor-arity", files: map[string]string{"main.zn": "注：a\n定义箱：\n\t其值 = 0\n如何新建箱？\n\t输入值\n\t其值 = 值\n\n令物 = （新建箱：1、2）\n"}, accept: [][]fr{{{M, 8}}, {{M, 8}, {M, 4}}, {{M, 8}, {M, 5}}}},
